@@ -54,22 +54,25 @@ func (f *Prog) Call(s *slip.Scope, args slip.List, depth int) slip.Object {
 	ns.TagBody = true
 	d2 := depth + 1
 	if exit := processBinding(s, ns, args[0], d2); exit != nil {
-		return exit
+		return loopExit(exit)
 	}
 	for i := 1; i < len(args); i++ {
+		switch args[i].(type) {
+		case slip.List, slip.Funky:
+		default:
+			continue // a tag, tags are not evaluated
+		}
 		switch tr := slip.EvalArg(ns, args, i, d2).(type) {
 		case *slip.ReturnResult:
-			if tr.Tag == nil {
-				return tr.Result
-			}
-			if s.Block {
-				return tr
-			}
+			return loopExit(tr)
 		case *GoTo:
-			for i++; i < len(args); i++ {
+			for i = 1; i < len(args); i++ {
 				if args[i] == tr.Tag {
 					break
 				}
+			}
+			if len(args) <= i { // not a tag of this body, let an outer tagbody have it
+				return tr
 			}
 		}
 	}
